@@ -37,6 +37,7 @@ import sys
 HERE = os.path.dirname(os.path.abspath(__file__))
 VERIF = os.path.dirname(HERE)
 LEAN_OUT = os.path.join(VERIF, 'lean', 'PeptVerif', 'Generated', 'Effects.lean')
+LEAN_DIR = os.path.join(VERIF, 'lean', 'PeptVerif', 'Generated', 'Effects')
 
 
 def repo_src():
@@ -1654,6 +1655,26 @@ class Mirror:
                 'retDeep': dedup([src(o) for o in rc[2]]), 'links': dedup(links)}, n
 
 
+def verdict_of(m, info, P):
+    """what the Lean side reads off the table: written parameters / globals, parameters / globals the result may share"""
+    w = []
+    for st in info['stmts']:
+        w = _union(w, m.targets(st, P))
+    rc = m.get(P, info['ret'])
+    objs = rc[0] + rc[1] + rc[2]
+
+    def ded(l):
+        out = []
+        for x in l:
+            if x not in out:
+                out.append(x)
+        return sorted(out)
+    return {'writes': ded([o[1] for o in w if o[0] in ('root', 'inner', 'recd', 'recTop')]),
+            'globals': ded([o[1] for o in w if o[0] == 'glob']),
+            'share': ded([o[1] for o in objs if o[0] in ('root', 'inner')]),
+            'shareGlobals': ded([o[1] for o in objs if o[0] == 'glob'])}
+
+
 def solve(progs):
     n = len(progs)
     S = [{'writes': [], 'globals': [], 'retTop': [], 'retKids': [], 'retDeep': [], 'links': []} for _ in range(n)]
@@ -1810,8 +1831,20 @@ def generate():
         roots.append((q, None))
     tr.run(roots)
     n = len(tr.order)
-    progs = [tr.progs[i] for i in range(n)]
+    # stable numbering: by source module, then qualified name, then variant - a changed body does not move any id, and the
+    # functions of one source module are a contiguous block
+    old_order = list(tr.order)
+    new_order = sorted(old_order, key=lambda k: (pkg.funcs[k[0]].module, k[0], {None: 0, False: 1, True: 2}[k[1]]))
+    perm = {tr.variants[k]: i for i, k in enumerate(new_order)}
+    progs = [None] * n
+    for k in old_order:
+        pr = tr.progs[tr.variants[k]]
+        pr['stmts'] = [(st[0], st[1], perm[st[2]], st[3]) if st[0] == 'call' else st for st in pr['stmts']]
+        pr['module'] = pkg.funcs[k[0]].module
+        progs[perm[tr.variants[k]]] = pr
+    variants = {k: perm[v] for k, v in tr.variants.items()}
     S, fuel, tables = solve(progs)
+    verdicts = [verdict_of(Mirror(S), progs[f], tables[f]) for f in range(n)]
     for name, params, qual in members:
         if qual not in pkg.funcs:
             continue
@@ -1821,66 +1854,134 @@ def generate():
         # a constructor writes the object under construction (parameter 0): held to the editor obligation (only parameter 0)
         ed = D.is_declared_editor(name, '') or qual.endswith('.__init__')
         if fn.has_inplace:
-            entries.append((name, tr.variants[(qual, False)], ed, rnd, fn.allparams, outside))
-            entries.append((name + '[inplace]', tr.variants[(qual, True)], True, rnd, fn.allparams, outside))
+            entries.append((name, variants[(qual, False)], ed, rnd, fn.allparams, outside))
+            entries.append((name + '[inplace]', variants[(qual, True)], True, rnd, fn.allparams, outside))
         else:
-            entries.append((name, tr.variants[(qual, None)], ed, rnd, fn.allparams, outside))
-    getter_ids = [tr.variants[(g, None)] for g in getters]
+            entries.append((name, variants[(qual, None)], ed, rnd, fn.allparams, outside))
+    getter_ids = [variants[(g, None)] for g in getters]
 
-    lines = []
-    lines.append('import PeptVerif.Model.Effects')
-    lines.append('/-! GENERATED by harness/translate_effects.py from the current /repo source - do not edit -/')
-    lines.append('namespace Gen')
-    lines.append('open Effects')
-    lines.append('set_option maxRecDepth 100000')
-    for i, p in enumerate(progs):
-        tag = p['qual'] + ('' if p['inplace'] is None else f'[inplace={p["inplace"]}]')
-        body = ',\n  '.join(lean_stmt(s) for s in p['stmts'])
-        lines.append(f'/-- {tag} -/\ndef prog_{i} : List Stmt := [\n  {body}]\n')
-    for i, t in enumerate(tables):
-        lines.append(f'def table_{i} : Pts := [\n  ' + ',\n  '.join(lean_cell(c) for c in t) + ']\n')
-    lines.append(chunked('fns', 'FnInfo', [f'{{ prog := prog_{i}, nparams := {p["nparams"]}, ret := {p["ret"]}, fuel := {fuel[i]}, '
-                                           f'table := table_{i} }}' for i, p in enumerate(progs)]))
-    lines.append(chunked('summaries', 'Summary', [lean_summary(s) for s in S]))
-    lines.append(chunked('fnNames', 'String', [lean_str(p['qual'] + ('' if p['inplace'] is None else f'[inplace={p["inplace"]}]'))
-                                               for p in progs]))
-    lines.append('structure ApiEntry where\n  name : String\n  code : List Nat\n  fid : Nat\n  editor : Bool\n  random : Bool\n'
-                 '  params : List String\n')
-    lines.append(chunked('api', 'ApiEntry', [
+    def tag_of(p):
+        return p['qual'] + ('' if p['inplace'] is None else f'[inplace={p["inplace"]}]')
+
+    # ---- Core: everything small and global (summaries, verdicts, API entries, names)
+    core = []
+    core.append('import PeptVerif.Model.Effects')
+    core.append('/-! GENERATED by harness/translate_effects.py from the current /repo source - do not edit.\n'
+                'Global tables: call summaries, the verdict claimed for every function (checked against its program in the\n'
+                'per-module files), API entries. -/')
+    core.append('namespace Gen')
+    core.append('open Effects')
+    core.append('set_option maxRecDepth 100000')
+    core.append(chunked('summaries', 'Summary', [lean_summary(x) for x in S]))
+    core.append(chunked('verdicts', 'Verdict', [
+        '{ writes := [' + ', '.join(map(str, v['writes'])) + '], globals := [' + ', '.join(map(str, v['globals'])) +
+        '], share := [' + ', '.join(map(str, v['share'])) + '], shareGlobals := [' + ', '.join(map(str, v['shareGlobals'])) + '] }'
+        for v in verdicts]))
+    core.append(chunked('fnNames', 'String', [lean_str(tag_of(p)) for p in progs]))
+    core.append('structure ApiEntry where\n  name : String\n  code : List Nat\n  fid : Nat\n  editor : Bool\n  random : Bool\n'
+                '  params : List String\n')
+    core.append(chunked('api', 'ApiEntry', [
         f'{{ name := {lean_str(nm)}, code := {codes(nm.replace("[inplace]", ""))}, fid := {fid}, editor := {"true" if ed else "false"}, '
         f'random := {"true" if rnd else "false"}, params := [{", ".join(lean_str(p) for p in ps)}] }}'
         for nm, fid, ed, rnd, ps, outside in entries]))
-    lines.append('/-- every public callable that accepts an annotation / dict / list (name as code points, parameter kinds) -/')
-    lines.append(chunked('apiSurface', '(List Nat × List String)',
-                         [f'({codes(nm)}, [{", ".join(lean_str(pn + ":" + k) for pn, k in ps)}])' for nm, ps, _ in members]))
-    lines.append(chunked('analysed', '(List Nat)', [codes(nm) for nm, _, q in members if q in pkg.funcs]))
-    lines.append(chunked('apiSurfaceNames', 'String', [lean_str(nm) for nm, _, _ in members]))
-    lines.append('/-- property getters and implicitly invoked special methods (__eq__, __len__, __iter__, ...) -/')
-    lines.append('def getters : List Nat := [' + ', '.join(map(str, getter_ids)) + ']')
-    lines.append(chunked('globalNames', 'String', [lean_str(g) for g in pkg.gnames]))
+    core.append('/-- every public callable that accepts an annotation / dict / list (name as code points, parameter kinds) -/')
+    core.append(chunked('apiSurface', '(List Nat × List String)',
+                        [f'({codes(nm)}, [{", ".join(lean_str(pn + ":" + k) for pn, k in ps)}])' for nm, ps, _ in members]))
+    core.append(chunked('analysed', '(List Nat)', [codes(nm) for nm, _, q in members if q in pkg.funcs]))
+    core.append(chunked('apiSurfaceNames', 'String', [lean_str(nm) for nm, _, _ in members]))
+    core.append('/-- property getters and implicitly invoked special methods (__eq__, __len__, __iter__, ...) -/')
+    core.append('def getters : List Nat := [' + ', '.join(map(str, getter_ids)) + ']')
+    core.append(chunked('globalNames', 'String', [lean_str(g) for g in pkg.gnames]))
     db_ids = [g for (m, nm), g in sorted(pkg.globals.items(), key=lambda kv: kv[1]) if m == 'peptacular.mods.mod_db_setup' and nm.endswith('_DB')]
-    lines.append('/-- the module-level EntryDb objects (modification databases) -/')
-    lines.append('def dbGlobals : List Nat := [' + ', '.join(map(str, db_ids)) + ']')
-    lines.append('/-- explicit database editors (reload / reset), analysed for non-vacuity -/')
-    lines.append('def dbEditors : List Nat := [' + ', '.join(str(tr.variants[(q, None)]) for q in db_editor_quals) + ']')
-    lines.append('end Gen')
-    text = '\n'.join(lines) + '\n'
+    core.append('/-- the module-level EntryDb objects (modification databases) -/')
+    core.append('def dbGlobals : List Nat := [' + ', '.join(map(str, db_ids)) + ']')
+    core.append('/-- explicit database editors (reload / reset), analysed for non-vacuity -/')
+    core.append('def dbEditors : List Nat := [' + ', '.join(str(variants[(q, None)]) for q in db_editor_quals) + ']')
+    core.append('end Gen')
+    files = {'Effects/Core.lean': '\n'.join(core) + '\n'}
+
+    # ---- one file per source module: programs, tables, and the kernel check of exactly these functions
+    modules = []
+    for f, p in enumerate(progs):
+        if not modules or modules[-1][0] != p['module']:
+            modules.append((p['module'], []))
+        modules[-1][1].append(f)
+    mod_ns = []
+    for mod, fids in modules:
+        ns = 'M_' + re.sub(r'[^A-Za-z0-9]', '_', mod.replace('peptacular.', '').replace('peptacular', 'root'))
+        mod_ns.append(ns)
+        ml = []
+        ml.append('import PeptVerif.Generated.Effects.Core')
+        ml.append(f'/-! GENERATED by harness/translate_effects.py - do not edit.  Source module: {mod} ({len(fids)} functions).\n'
+                  '`ok` is the kernel check of these functions against the global summary / verdict tables: every table is closed\n'
+                  'under its program, the summary the program induces is within the summary table, and the write / sharing sets\n'
+                  'read off the table are the claimed verdict. -/')
+        ml.append(f'namespace Gen.{ns}')
+        ml.append('open Effects')
+        ml.append('set_option maxRecDepth 100000')
+        for f in fids:
+            p = progs[f]
+            body = ',\n  '.join(lean_stmt(x) for x in p['stmts'])
+            ml.append(f'/-- {tag_of(p)} -/\ndef prog_{f} : List Stmt := [\n  {body}]\n')
+            ml.append(f'def table_{f} : Pts := [\n  ' + ',\n  '.join(lean_cell(c) for c in tables[f]) + ']\n')
+        ml.append(chunked('fns', '(Nat × FnInfo)', [
+            f'({f}, {{ prog := prog_{f}, nparams := {progs[f]["nparams"]}, ret := {progs[f]["ret"]}, fuel := {fuel[f]}, table := table_{f} }})'
+            for f in fids]))
+        ml.append('theorem ok : fns.all (fun p => entryOK Gen.summaries Gen.verdicts p.1 p.2) = true := by\n  decide +kernel\n')
+        ml.append(f'end Gen.{ns}')
+        files[f'Effects/{ns}.lean'] = '\n'.join(ml) + '\n'
+
+    # ---- assembly
+    top = []
+    for ns in mod_ns:
+        top.append(f'import PeptVerif.Generated.Effects.{ns}')
+    top.append('/-! GENERATED by harness/translate_effects.py - do not edit.  Assembly of the per-module files. -/')
+    top.append('namespace Gen')
+    top.append('open Effects')
+    top.append('/-- all translated functions with their ids, module by module -/')
+    def nest(items, fmt):
+        out = items[-1]
+        for x in reversed(items[:-1]):
+            out = fmt(x, out)
+        return out
+    top.append('def fnsIdx : List (Nat × FnInfo) := ' + nest([f'{ns}.fns' for ns in mod_ns], lambda a, b: f'{a} ++ ({b})'))
+    top.append('def fns : List FnInfo := fnsIdx.map (·.2)')
+    top.append('def moduleNames : List String := [' + ', '.join(lean_str(m) for m, _ in modules) + ']')
+    top.append('/-- every function passed its module\'s kernel check -/')
+    top.append('theorem all_ok : fnsIdx.all (fun p => entryOK summaries verdicts p.1 p.2) = true :=\n  ' +
+               nest([f'{ns}.ok' for ns in mod_ns], lambda a, b: f'all_append_of {a} ({b})') + '\n')
+    top.append('end Gen')
+    files['Effects.lean'] = '\n'.join(top) + '\n'
+    text = files['Effects/Core.lean']
     info = {'functions': n, 'api_members': len(members), 'missing': missing, 'statements': sum(len(p['stmts']) for p in progs),
             'unresolved_calls': {k: sorted(v)[:6] for k, v in sorted(tr.log['unresolved_calls'].items())},
             'unknown_receiver_methods': {k: sorted(v)[:6] for k, v in sorted(tr.log['unknown_receiver_methods'].items())},
             'unknown_decorators': sorted(pkg.unknown_decorators), 'max_fuel': max(fuel), 'entries': entries,
-            'summaries': S, 'progs': progs, 'gnames': pkg.gnames, 'tables': tables}
+            'summaries': S, 'progs': progs, 'gnames': pkg.gnames, 'tables': tables, 'files': files, 'verdicts': verdicts}
     return text, info
 
 
 def write_generated():
+    """writes Generated/Effects.lean, Generated/Effects/Core.lean and one Generated/Effects/M_<module>.lean per source module;
+    only files whose content changed are rewritten (lake rebuilds only what depends on them), stale module files are removed"""
     text, info = generate()
-    os.makedirs(os.path.dirname(LEAN_OUT), exist_ok=True)
-    old = open(LEAN_OUT).read() if os.path.exists(LEAN_OUT) else None
-    info['changed'] = old != text
-    if info['changed']:
-        with open(LEAN_OUT, 'w') as f:
-            f.write(text)
+    base = os.path.join(VERIF, 'lean', 'PeptVerif', 'Generated')
+    os.makedirs(LEAN_DIR, exist_ok=True)
+    changed = []
+    for rel, content in info['files'].items():
+        path = os.path.join(base, rel)
+        old = open(path).read() if os.path.exists(path) else None
+        if old != content:
+            with open(path, 'w') as f:
+                f.write(content)
+            changed.append(rel)
+    keep = {os.path.basename(r) for r in info['files'] if r.startswith('Effects/')}
+    for fn in os.listdir(LEAN_DIR):
+        if fn.endswith('.lean') and fn not in keep:
+            os.remove(os.path.join(LEAN_DIR, fn))
+            changed.append('removed Effects/' + fn)
+    info['changed'] = bool(changed)
+    info['changed_files'] = changed
     return info
 
 
